@@ -3,6 +3,7 @@
   All statements are for every hierarchy `h` (any number of classes, any multiple-inheritance DAG respecting definition order).
 -/
 import PonyVerif.Model.Inherit
+import PonyVerif.Model.JoinDiscr
 set_option linter.unusedSimpArgs false
 set_option linter.unusedVariables false
 namespace PonyVerif.Props.C27
@@ -348,5 +349,96 @@ theorem C27_isinstance_related_filter_false :
   intro hf
   have := hf diamond 1 3 [2] (by decide) (by decide) (by decide) (by decide)
   revert this; decide
+
+/-! ### which table references carry the discriminator filter (guards regenerated from TableRef / JoinedTableRef .make_join) -/
+
+section JoinDiscr
+open PonyVerif.Model.JoinDiscr PonyVerif.Gen
+
+theorem tableRef_after_first (hasDiscr : Bool) (s : TState) (hj : s.joined = true) (calls : List Bool) :
+    calls.foldl (tableRefStep hasDiscr) s = s := by
+  induction calls with
+  | nil => rfl
+  | cons c cs ih => simp [List.foldl, tableRefStep, JoinGuards.tableRefOuterGuard, hj, ih]
+
+theorem starTableRef_after_first (hasDiscr : Bool) (s : TState) (hj : s.joined = true) (calls : List Bool) :
+    calls.foldl (starTableRefStep hasDiscr) s = s := by
+  induction calls with
+  | nil => rfl
+  | cons c cs ih => simp [List.foldl, starTableRefStep, JoinGuards.starTableRefOuterGuard, hj, ih]
+
+/-- **Every table reference of an entity is filtered exactly once.**  Whatever the sequence of `make_join(pk_only)` calls on a TableRef
+    (a `for` variable, or the lazily joined table of a nested `Entity.select/exists(lambda)`), as soon as there is one call the table is in
+    FROM exactly once and carries the discriminator criteria exactly once iff the entity has a discriminator — also when the first use
+    is pk-only -/
+theorem C27_tableref_filtered_once (hasDiscr : Bool) (first : Bool) (rest : List Bool) :
+    (tableRefRun hasDiscr (first :: rest)).fromItems = 1 ∧
+    (tableRefRun hasDiscr (first :: rest)).filters = (if hasDiscr then 1 else 0) := by
+  have h1 : tableRefStep hasDiscr {} first = { joined := true, fromItems := 1, filters := if hasDiscr then 1 else 0 } := by
+    cases hasDiscr <;> simp [tableRefStep, JoinGuards.tableRefOuterGuard, JoinGuards.tableRefDiscrGuard]
+  simp only [tableRefRun, List.foldl, h1]
+  rw [tableRef_after_first hasDiscr _ rfl rest]
+  exact ⟨rfl, rfl⟩
+
+/-- the same for a StarTableRef (`for x in <subquery returning entities>`) -/
+theorem C27_startableref_filtered_once (hasDiscr : Bool) (first : Bool) (rest : List Bool) :
+    (starTableRefRun hasDiscr (first :: rest)).fromItems = 1 ∧
+    (starTableRefRun hasDiscr (first :: rest)).filters = (if hasDiscr then 1 else 0) := by
+  have h1 : starTableRefStep hasDiscr {} first = { joined := true, fromItems := 1, filters := if hasDiscr then 1 else 0 } := by
+    cases hasDiscr <;> simp [starTableRefStep, JoinGuards.starTableRefOuterGuard, JoinGuards.starTableRefDiscrGuard]
+  simp only [starTableRefRun, List.foldl, h1]
+  rw [starTableRef_after_first hasDiscr _ rfl rest]
+  exact ⟨rfl, rfl⟩
+
+example : (tableRefRun true [true, false, true]).filters = 1 := by decide
+
+/-- invariant of a JoinedTableRef under any sequence of calls -/
+def jinv (k : RelKind) (hasDiscr : Bool) (s : JState) : Prop :=
+  s.entityJoins ≤ 1 ∧ s.m2mJoins ≤ 1 ∧
+  (s.entityJoins = 1 ↔ (s.joined = true ∧ s.optimized = false)) ∧
+  (k = .m2m → (s.m2mJoins = 1 ↔ s.joined = true)) ∧
+  (k ≠ .m2m → s.m2mJoins = 0) ∧
+  ((k = .fkLeft ∨ k = .m2m) → s.filters = (if hasDiscr then s.entityJoins else 0)) ∧
+  s.filters ≤ s.entityJoins ∧
+  (s.optimized = true → k = .fkLeft ∨ (k = .m2m ∧ s.joined = true))
+
+theorem jinv_step (k : RelKind) (hasDiscr : Bool) (s : JState) (pkOnly : Bool) (h : jinv k hasDiscr s) :
+    jinv k hasDiscr (joinedStep k hasDiscr s pkOnly) := by
+  obtain ⟨h1, h2, h3, h4, h5, h6, h7, h8⟩ := h
+  rcases s with ⟨j, o, e, f, m⟩
+  simp only at h1 h2 h3 h4 h5 h6 h7 h8
+  cases k <;> cases pkOnly <;> cases j <;> cases o <;> cases hasDiscr <;>
+    simp [jinv, joinedStep, joinEntity, JoinGuards.joinedEarlyReturn, JoinGuards.joinedDiscrGuard] at * <;> omega
+
+theorem jinv_run (k : RelKind) (hasDiscr : Bool) (calls : List Bool) : jinv k hasDiscr (joinedRun k hasDiscr calls) := by
+  have : ∀ s, jinv k hasDiscr s → jinv k hasDiscr (calls.foldl (joinedStep k hasDiscr) s) := by
+    induction calls with
+    | nil => intro s h; exact h
+    | cons c cs ih => intro s h; exact ih _ (jinv_step k hasDiscr s c h)
+  apply this
+  cases k <;> cases hasDiscr <;> simp [jinv]
+
+/-- **Attribute navigation.**  For every relationship kind and every sequence of `make_join(pk_only)` calls on a JoinedTableRef: the
+    entity's table and the intermediate table are joined at most once; no join condition carries the criteria twice; and for a
+    foreign key on the left and for many-to-many the entity's table, whenever it is joined, carries the criteria iff the entity has a
+    discriminator (there the join happens only on a non-pk-only use) -/
+theorem C27_joined_filtered (k : RelKind) (hasDiscr : Bool) (calls : List Bool) :
+    (joinedRun k hasDiscr calls).entityJoins ≤ 1 ∧ (joinedRun k hasDiscr calls).m2mJoins ≤ 1 ∧
+    (joinedRun k hasDiscr calls).filters ≤ (joinedRun k hasDiscr calls).entityJoins ∧
+    ((k = .fkLeft ∨ k = .m2m) →
+      (joinedRun k hasDiscr calls).filters = (if hasDiscr then (joinedRun k hasDiscr calls).entityJoins else 0)) := by
+  obtain ⟨h1, h2, _, _, _, h6, h7, _⟩ := jinv_run k hasDiscr calls
+  exact ⟨h1, h2, h7, h6⟩
+
+/-- where the key column lives in the OTHER table (one-to-one on the right, one-to-many) a pk-only first use joins that table without
+    the criteria and later uses do not add them — the rows are already restricted by the key column, which only the declaring entity's rows fill -/
+theorem C27_joined_right_pk_only_unfiltered :
+    (joinedRun .o2m true [true, false]).entityJoins = 1 ∧ (joinedRun .o2m true [true, false]).filters = 0 ∧
+    (joinedRun .o2oRight true [false, true]).filters = 1 := by
+  decide
+
+example : (joinedRun .m2m true [true, false, false]) = { joined := true, optimized := false, entityJoins := 1, filters := 1, m2mJoins := 1 } := by decide
+
+end JoinDiscr
 
 end PonyVerif.Props.C27
